@@ -32,7 +32,7 @@ Qed.
 
 Lemma rem_exhausted t : rem t = 0 <-> exhausted t = true.
 Proof.
-  destruct t as [c e|c e|l|ts|ts k e|t e|t e s|t q e|t e|t e]; cbn [rem exhausted];
+  destruct t as [c e|c e|l|ts|ts k e|t e|t e s|t q e|t e|t e yl]; cbn [rem exhausted];
     try (destruct e; split; intro H; try reflexivity; try discriminate; fail).
   - destruct l; cbn; split; intro H; try reflexivity; discriminate.
   - destruct ts; split; intro H; try reflexivity; discriminate.
@@ -82,15 +82,18 @@ Section LoopsShown.
     - destruct (nx t c) as [[r t'] c']. cbn [r_cache snd] in H. rewrite IH. exact H.
   Qed.
 
-  Lemma uniquify_shown fuel t e c : map shown (snd (uniquify nx fuel t e c)) = map shown c.
+  Lemma uniquify_shown fuel yl t e c : map shown (snd (uniquify nx fuel yl t e c)) = map shown c.
   Proof.
     revert t e c. induction fuel as [|f IH]; intros t e c; [reflexivity|].
     cbn [uniquify]. destruct e; [reflexivity|].
     destruct (peek t) as [p|]; [|reflexivity].
-    destruct (find_text (c_text p) c) as [k|]; [|reflexivity].
-    pose proof (Hnx t (rewrite_at k p c)) as H.
-    destruct (nx t (rewrite_at k p c)) as [[r t'] c2]. cbn [r_cache snd] in H.
-    rewrite IH, H. apply rewrite_at_shown.
+    destruct (find_text (c_text p) c) as [k|].
+    - pose proof (Hnx t (rewrite_at k p c)) as H.
+      destruct (nx t (rewrite_at k p c)) as [[r t'] c2]. cbn [r_cache snd] in H.
+      rewrite IH, H. apply rewrite_at_shown.
+    - destruct (has_text yl (c_text p)); [|reflexivity].
+      pose proof (Hnx t c) as H.
+      destruct (nx t c) as [[r t'] c2]. cbn [r_cache snd] in H. now rewrite IH.
   Qed.
 
   Lemma rearrange_shown fuel t top bottom c :
@@ -109,7 +112,7 @@ End LoopsShown.
 Lemma next_d_shown d : nx_shown (next_d d).
 Proof.
   induction d as [|d IH]; intros t c; [reflexivity|].
-  destruct t as [cd e|cd e|l|ts|ts k e|t e|t e s|t q e|t e|t e]; cbn [next_d].
+  destruct t as [cd e|cd e|l|ts|ts k e|t e|t e s|t q e|t e|t e yl]; cbn [next_d].
   - destruct e; reflexivity.
   - destruct e; reflexivity.
   - destruct l; reflexivity.
@@ -135,8 +138,9 @@ Proof.
     cbn [r_cache snd] in *. congruence.
   - destruct e; [reflexivity|].
     pose proof (IH t c) as H. destruct (next_d d t c) as [[r0 t'] c']. cbn [r_cache snd] in H.
-    pose proof (uniquify_shown _ IH (S (rem t')) t' (exhausted t') c') as H2.
-    destruct (uniquify (next_d d) (S (rem t')) t' (exhausted t') c') as [[[r1 t1] e1] c1].
+    match goal with |- context [uniquify _ _ ?yl _ _ _] =>
+      pose proof (uniquify_shown _ IH (S (rem t')) yl t' (exhausted t') c') as H2;
+      destruct (uniquify (next_d d) (S (rem t')) yl t' (exhausted t') c') as [[[r1 t1] e1] c1] end.
     cbn [r_cache snd] in *. congruence.
 Qed.
 
@@ -190,19 +194,25 @@ Section LoopsRem.
   Lemma locate_exh fuel t c : exhausted t = true -> fst (fst (locate nx fuel t c)) = false.
   Proof. intro H. destruct fuel; cbn [locate]; [reflexivity|]. now rewrite H. Qed.
 
-  Lemma uniquify_rem fuel t e c :
-    let r := uniquify nx fuel t e c in
+  Lemma uniquify_rem fuel yl t e c :
+    let r := uniquify nx fuel yl t e c in
     (snd (fst r) = true \/ rem (snd (fst (fst r))) <= rem t) /\ (e = true -> snd (fst r) = true).
   Proof.
     revert t e c. induction fuel as [|f IH]; intros t e c; [split; [left|]; reflexivity|].
     cbn [uniquify]. destruct e; [split; [left|]; reflexivity|].
     destruct (peek t) as [p|]; [|split; [right; cbn; lia|discriminate]].
-    destruct (find_text (c_text p) c) as [k|]; [|split; [right; cbn; lia|discriminate]].
-    destruct (Hnx t (rewrite_at k p c)) as [Hle _].
-    destruct (nx t (rewrite_at k p c)) as [[r0 t'] c2]. cbn [r_tr fst snd] in Hle.
-    specialize (IH t' (exhausted t') c2). cbn zeta in IH. destruct IH as [[IH|IH] _].
-    - split; [left; exact IH|discriminate].
-    - split; [right; lia|discriminate].
+    destruct (find_text (c_text p) c) as [k|].
+    - destruct (Hnx t (rewrite_at k p c)) as [Hle _].
+      destruct (nx t (rewrite_at k p c)) as [[r0 t'] c2]. cbn [r_tr fst snd] in Hle.
+      specialize (IH t' (exhausted t') c2). cbn zeta in IH. destruct IH as [[IH|IH] _].
+      + split; [left; exact IH|discriminate].
+      + split; [right; lia|discriminate].
+    - destruct (has_text yl (c_text p)); [|split; [right; cbn; lia|discriminate]].
+      destruct (Hnx t c) as [Hle _].
+      destruct (nx t c) as [[r0 t'] c2]. cbn [r_tr fst snd] in Hle.
+      specialize (IH t' (exhausted t') c2). cbn zeta in IH. destruct IH as [[IH|IH] _].
+      + split; [left; exact IH|discriminate].
+      + split; [right; lia|discriminate].
   Qed.
 End LoopsRem.
 
@@ -271,7 +281,7 @@ Proof.
   induction d as [|d IH]; intros t c.
   { cbn. split; [lia|]. intro H. now apply rem_pos. }
   pose proof (nx_rem_alive _ IH) as Hal.
-  destruct t as [cd e|cd e|l|ts|ts k e|t e|t e s|t q e|t e|t e]; cbn [next_d].
+  destruct t as [cd e|cd e|l|ts|ts k e|t e|t e s|t q e|t e|t e yl]; cbn [next_d].
   - destruct e; cbn; split; try lia; discriminate.
   - destruct e; cbn; split; try lia; discriminate.
   - destruct l; cbn; split; try lia; discriminate.
@@ -319,8 +329,9 @@ Proof.
   - destruct e; [cbn; split; [lia|discriminate]|].
     specialize (Hal t c). destruct (IH t c) as [Hle _].
     destruct (next_d d t c) as [[r0 t'] c']. cbn [r_tr fst snd] in *.
-    pose proof (uniquify_rem _ IH (S (rem t')) t' (exhausted t') c') as H2.
-    destruct (uniquify (next_d d) (S (rem t')) t' (exhausted t') c') as [[[r1 t1] e1] c1].
+    match goal with |- context [uniquify _ _ ?yl _ _ _] =>
+      pose proof (uniquify_rem _ IH (S (rem t')) yl t' (exhausted t') c') as H2;
+      destruct (uniquify (next_d d) (S (rem t')) yl t' (exhausted t') c') as [[[r1 t1] e1] c1] end.
     cbn [r_tr fst snd rem] in *. destruct H2 as [H2 H3].
     destruct e1; [split; intros; lia|].
     destruct H2 as [H2|H2]; [discriminate|].
